@@ -374,3 +374,79 @@ Section Obj.
 
   Definition c04_hrun (y : c04_sys) (ops : list c04_hop) : c04_sys := fold_left c04_hstep ops y.
 End Obj.
+
+(* ---- operational semantics of the ring: blocking MPI_Ssend / MPI_Recv ------------------------------------- *)
+(* state of one rank: the calls it still has to make (c04_ring_ops, literally), its two buffers, and the calls of
+   unpackCreateRemote made so far as (remoteProc, content of p_in) *)
+Record c04_rk := C04_mkrk { c04_rk_prog : list (nat * c04_mpi_op); c04_rk_bufs : c04_msg * c04_msg;
+                            c04_rk_arr : list (nat * c04_msg) }.
+Definition c04_ring_cfg := nat -> c04_rk.                                   (* rank -> state *)
+Definition c04_ring_init (P : nat) (msgs : list c04_msg) : c04_ring_cfg :=
+  fun p => C04_mkrk (c04_ring_ops P p) (nth p msgs c04_empty_msg, c04_empty_msg) [].
+(* a synchronous send completes together with the matching receive: rank p is blocked in MPI_Ssend(to q) and rank q is
+   blocked in MPI_Recv(from p).  Some (q, round of the send, round of the receive) *)
+Definition c04_ring_enabled (cfg : c04_ring_cfg) (p : nat) : option (nat * nat * nat) :=
+  match c04_rk_prog (cfg p) with
+  | (ks, C04_Ssend q) :: _ =>
+      match c04_rk_prog (cfg q) with
+      | (kr, C04_Recv p') :: _ => if (p' =? p) && negb (q =? p) then Some (q, ks, kr) else None
+      | _ => None
+      end
+  | _ => None
+  end.
+(* the rendezvous: p_out of the sender is copied into p_in of the receiver, which then calls
+   unpackCreateRemote(p_in, ..., remoteProc = (rank+procs-proc)%procs); both calls return *)
+Definition c04_ring_fire (P : nat) (cfg : c04_ring_cfg) (p : nat) : c04_ring_cfg :=
+  match c04_ring_enabled cfg p with
+  | None => cfg
+  | Some (q, ks, kr) =>
+      let data := c04_p_out ks (c04_rk_bufs (cfg p)) in
+      fun z => if z =? q then C04_mkrk (tl (c04_rk_prog (cfg q))) (c04_set_p_in kr (c04_rk_bufs (cfg q)) data)
+                                       (c04_rk_arr (cfg q) ++ [(c04_ring_source P q kr, data)])
+               else if z =? p then C04_mkrk (tl (c04_rk_prog (cfg p))) (c04_rk_bufs (cfg p)) (c04_rk_arr (cfg p))
+               else cfg z
+  end.
+(* run a schedule (list of sending ranks); None if some rendezvous of the schedule is not enabled *)
+Fixpoint c04_ring_run (P : nat) (cfg : c04_ring_cfg) (sched : list nat) : option c04_ring_cfg :=
+  match sched with
+  | [] => Some cfg
+  | p :: t => match c04_ring_enabled cfg p with None => None | Some _ => c04_ring_run P (c04_ring_fire P cfg p) t end
+  end.
+
+(* ---- operational semantics of the neighbour mode ------------------------------------------------------------ *)
+(* MPI_Issend to every neighbour (non-blocking), then |neighbourIds| x (MPI_Probe(MPI_ANY_SOURCE); MPI_Recv from the probed
+   source; unpackCreateRemote), then MPI_Waitall on the sends.  State of one rank: the Issends not yet posted, the posted
+   Issends not yet matched by a receive, the number of probes still to do, and the sources received so far in order *)
+Record c04_nb := C04_mknb { c04_nb_topost : list nat; c04_nb_posted : list nat; c04_nb_nrecv : nat; c04_nb_arr : list nat }.
+Definition c04_nb_cfg := nat -> c04_nb.
+Definition c04_nb_init (hints : list (list nat)) : c04_nb_cfg :=
+  fun p => let h := nth p hints [] in C04_mknb h [] (length h) [].
+Fixpoint c04_remove1 (x : nat) (l : list nat) : list nat :=
+  match l with [] => [] | y :: t => if x =? y then t else y :: c04_remove1 x t end.
+Fixpoint c04_mem (x : nat) (l : list nat) : bool := match l with [] => false | y :: t => (x =? y) || c04_mem x t end.
+(* rank p posts its next MPI_Issend *)
+Definition c04_nb_post (cfg : c04_nb_cfg) (p : nat) : option c04_nb_cfg :=
+  match c04_nb_topost (cfg p) with
+  | [] => None
+  | d :: t => Some (fun z => if z =? p then C04_mknb t (d :: c04_nb_posted (cfg p)) (c04_nb_nrecv (cfg p)) (c04_nb_arr (cfg p))
+                             else cfg z)
+  end.
+(* rank q (all its sends posted, probes left) probes ANY_SOURCE, is told p (any rank with a posted unmatched send to q), receives *)
+Definition c04_nb_recv (cfg : c04_nb_cfg) (q p : nat) : option c04_nb_cfg :=
+  match c04_nb_topost (cfg q), c04_nb_nrecv (cfg q) with
+  | [], S n =>
+      if c04_mem q (c04_nb_posted (cfg p)) && negb (p =? q) then
+        Some (fun z => if z =? q then C04_mknb [] (c04_nb_posted (cfg q)) n (c04_nb_arr (cfg q) ++ [p])
+                       else if z =? p then C04_mknb (c04_nb_topost (cfg p)) (c04_remove1 q (c04_nb_posted (cfg p)))
+                                                    (c04_nb_nrecv (cfg p)) (c04_nb_arr (cfg p))
+                       else cfg z)
+      else None
+  | _, _ => None
+  end.
+(* a schedule: inl p = post of p, inr (q, p) = q receives from p *)
+Fixpoint c04_nb_run (cfg : c04_nb_cfg) (sched : list (nat + nat * nat)) : option c04_nb_cfg :=
+  match sched with
+  | [] => Some cfg
+  | inl p :: t => match c04_nb_post cfg p with None => None | Some c => c04_nb_run c t end
+  | inr (q, p) :: t => match c04_nb_recv cfg q p with None => None | Some c => c04_nb_run c t end
+  end.
